@@ -326,6 +326,7 @@ CLOSED = [
 ]
 add(Contract(
     SB + "__init__", params={"self": "obj:StateBlock", "src": "str", "md": "obj:MarkdownIt", "env": "opaque", "tokens": "tokseq"}, props=["C01", "C03", "C17"],
+    ghost={"thorough_only": ["lines-cover-source", "covered", "open-closed-at-end"]},
     ensures=[
         ("WF1-len-e", f"len(self.eMarks) == {L}", ["C01", "C03"]), ("WF1-len-t", f"len(self.tShift) == {L}", ["C01"]), ("WF1-len-s", f"len(self.sCount) == {L}", ["C01"]),
         ("WF1-len-bs", f"len(self.bsCount) == {L}", ["C01"]), ("WF1-lineMax", f"self.lineMax == {L} - 1 and {L} >= 1", ["C01", "C03"]),
@@ -333,6 +334,7 @@ add(Contract(
         ("WF2", f"forall(i, 0, {L}, 0 <= self.bMarks[i] and 0 <= self.tShift[i] and self.bMarks[i] + self.tShift[i] <= self.eMarks[i] and self.eMarks[i] <= {N})", ["C01", "C03"]),
         ("WF3", f"forall(i, 0, {L} - 1, implies(self.eMarks[i] < {N}, self.src[self.eMarks[i]] == '\\n'))", ["C01"]),
         ("CONS", f"forall(i, 0, {L} - 1, self.bsCount[i] == 0 and self.sCount[i] >= 0 and self.bsCount[i] + self.sCount[i] == PhysCol(self.src, self.bMarks[i] + self.tShift[i]))", ["C17", "C06"]),
+        ("lines-cover-source", f"forall(p, 0, {N}, exists(i, 0, {L} - 1, self.bMarks[i] <= p and p <= self.eMarks[i]) or forall(k, p, {N}, self.src[k] == ' ' or self.src[k] == '\\t'))", ["C03"]),
         ("fresh-context", "self.blkIndent == 0 and self.line == 0 and self.level == 0 and self.parentType == 'root' and self.src == src", ["C07", "C12"]),
     ],
     loops={0: {"types": {"character": "char", "pos": "int"},
@@ -346,6 +348,8 @@ add(Contract(
                    ("scan-found", "implies(indent_found, 0 <= indent and start + indent < _it0 and offset == PhysCol(self.src, start + indent) and "
                                   "forall(k, start, start + indent, self.src[k] == ' ' or self.src[k] == '\\t') and not (self.src[start + indent] == ' ' or self.src[start + indent] == '\\t'))"),
                    ("offset-nonneg", "offset >= 0 and indent >= 0"),
+                   ("covered", f"forall(p, 0, start, implies(p < {N}, exists(i, 0, {L}, self.bMarks[i] <= p and p <= self.eMarks[i])))"),
+                   ("open-closed-at-end", f"implies(_it0 == {N} and indent_found, start > {N})"),
                    ("it-range", f"_it0 <= {N}")],
                "dec": f"{N} - _it0"}},
 ))
